@@ -90,6 +90,10 @@ type WALScan struct {
 	// Pages holds the last committed version of each page; Size the commit size.
 	Pages map[uint32][]byte
 	Size  uint32
+	// running checksum and end offset after the last commit frame
+	C0, C1    uint32
+	CommitEnd int64
+	Seq       uint32
 }
 
 // ScanWAL reads wal with SQLite's validity rules: header magic, version and
@@ -119,6 +123,8 @@ func ScanWAL(wal []byte) WALScan {
 	}
 	s.HeaderOK = true
 	s.PageSize = ps
+	s.Seq = binary.BigEndian.Uint32(wal[12:])
+	s.C0, s.C1, s.CommitEnd = c0, c1, WALHeaderSize
 	s.Salt1 = binary.BigEndian.Uint32(wal[16:])
 	s.Salt2 = binary.BigEndian.Uint32(wal[20:])
 	frameSize := int64(WALFrameHeaderSize) + int64(ps)
@@ -143,6 +149,7 @@ func ScanWAL(wal []byte) WALScan {
 		pending[pgno] = off
 		if commit != 0 {
 			s.LastCommit = len(s.Frames)
+			s.C0, s.C1, s.CommitEnd = c0, c1, off+frameSize
 			s.Size = commit
 			for p, o := range pending {
 				s.Pages[p] = wal[o+WALFrameHeaderSize : o+frameSize]
